@@ -426,7 +426,7 @@ func (g *engine) record(oc outcome, root string) {
 	payload := map[string]any{"scenario": kc.Name, "seed": kc.Seed, "rounds": kc.Rounds, "k": kc.K, "app": kc.App, "noinsert": kc.NoInsert, "snapfirst": kc.SnapFirst, "call": kc.Call, "acked": oc.acked, "op": oc.opAtKill, "recover": oc.rec, "app_out": oc.appOut, "log": tailS(oc.raw, 1500)}
 	if oc.rec.Recover == "fail" {
 		sig := "C03/" + oc.rec.Stage + "/" + desc
-		if oc.rec.Stage == "compare-after-snapshot" || oc.rec.Stage == "snapshot-after-restart" || oc.rec.Stage == "idle-sync" {
+		if oc.rec.Stage == "restore-retry" || oc.rec.Stage == "compare-after-snapshot" || oc.rec.Stage == "snapshot-after-restart" || oc.rec.Stage == "idle-sync" {
 			sig = "C03/" + oc.rec.Stage
 		} else if kc.App != "" { // what matters is what the application did while litestream was down, not the kill point
 			sig = "C03/" + oc.rec.Stage + "/app-while-down:" + strings.SplitN(strings.SplitN(kc.App, "mode=", 2)[1], ",", 2)[0]
